@@ -62,7 +62,7 @@ def own_regen(ck, files):
     wgen = os.path.join(ck.work, "gen")
     shutil.rmtree(wgen, ignore_errors=True)
     os.makedirs(wgen)
-    order = [n for n in ("X86RegTables.v", "InstNames.v", "InstNameTables.v") if n in files]
+    order = [n for n in ("X86RegTables.v", "InstNames.v", "InstNameTables.v", "FmtSourceTables.v", "X86ExplainTables.v") if n in files]
     for n in order:
         open(os.path.join(wgen, n), "w").write(files[n])
     args = ["-Q", os.path.join(vlib.COQ, "theories"), "Verif", "-Q", wgen, "VerifGen", "-w", "-all"]
@@ -93,7 +93,18 @@ def run(ck):
         files = {"InstNameTables.v": G.gen_name_tables_v(dn[0], dn[1], G.load_x86_aliases(vlib.REPO)),
                  "X86RegTables.v": G.gen_tables_v(tables),
                  "InstNames.v": G.gen_names_v(G.load_inst_names(vlib.REPO), G.load_a64_inst_names(vlib.REPO))}
+        try:
+            files["X86ExplainTables.v"] = G.gen_explain_tables_v(vlib.REPO)
+        except Exception as e:
+            ck.violation("C20/explain-tables-unreadable", "the immediate-explanation tables of x86formatter.cpp could not be read from the source text: %s" % e,
+                         {"broken": "translator gen_explain_tables_v"}, no_input=True)
+        ds = vlib.sh([impl], inp="DS\n", timeout=60)[1].split("\n")[0]
+        try:
+            files["FmtSourceTables.v"] = G.gen_source_tables_v(ds)
+        except Exception as e:
+            ck.violation("C20/harness-crash", "harness failed on DS: %s" % e, {"commands": ["DS"], "broken": "harness"}, no_input=True)
         r = own_regen(ck, files)
+        ck.log("coq/gen snapshot: %s" % ("current for this tree (fast path)" if r is None else "DIFFERS from this tree: regenerated and re-checked (slow path)"))
         if r is not None:
             gen_dir, failed, log = r
             ck.notes.append("coq/gen regenerated from the working tree (differs from the committed snapshot); failed: %s" % failed)
@@ -111,6 +122,30 @@ def run(ck):
                 if not found:
                     ck.violation("C20/inst-name-tables", "regenerated coq/gen/InstNameTables.v no longer satisfies its lemmas (alias formatting?): %s" % log[-500:],
                                  {"broken": "lemmas of coq/gen/InstNameTables.v"}, no_input=True)
+            if "X86ExplainTables.v" in failed:
+                # the explanation differential below names the concrete lines; here: which table differs from the model's (python comparison with the committed snapshot)
+                try:
+                    old_txt = open(os.path.join(vlib.COQ, "gen", "X86ExplainTables.v")).read().split("\n")
+                    new_txt = files["X86ExplainTables.v"].split("\n")
+                    diff = [(a_, b_) for a_, b_ in zip(old_txt, new_txt) if a_ != b_ and a_.startswith("Definition")]
+                except Exception:
+                    diff = []
+                for a_, b_ in diff[:4]:
+                    nm = a_.split()[1]
+                    ck.violation("C20/explain-table/%s" % nm, "the table %s of explain_const in x86formatter.cpp is now %s; the model (and the snapshot) has %s"
+                                 % (nm[4:], b_.split(":=", 1)[1].strip()[:300], a_.split(":=", 1)[1].strip()[:300]),
+                                 {"command": "X 2 16 <instruction using %s>" % nm[4:], "impl": b_, "model": a_})
+                if not diff:
+                    ck.violation("C20/explain-tables", "regenerated coq/gen/X86ExplainTables.v no longer satisfies explain_tables_ok: %s" % log[-500:],
+                                 {"broken": "lemma explain_tables_ok (coq/gen/X86ExplainTables.v)"}, no_input=True)
+            if "FmtSourceTables.v" in failed:
+                bad = G.find_bad_source_entries(ds)
+                for nm, i, got, want in bad[:6]:
+                    ck.violation("C20/source-table/%s/%d" % (nm, i), "the %s name table of the formatter prints entry %d as %r; it is %r" % (nm, i, got, want),
+                                 {"command": "DS", "impl": ds, "entry": [nm, i, got, want]})
+                if not bad:
+                    ck.violation("C20/source-tables", "regenerated coq/gen/FmtSourceTables.v no longer satisfies small_tables_check: %s" % log[-500:],
+                                 {"broken": "lemma source_small_tables_ok (coq/gen/FmtSourceTables.v)"}, no_input=True)
             if "InstNames.v" in failed:
                 ck.violation("C20/inst-names", "the instruction-name lists of the InstId enums no longer satisfy names_check (a mnemonic that is a prefix "
                              "keyword / not an identifier, or two x86 ids with one name): %s" % log[-500:],
@@ -130,7 +165,7 @@ def run(ck):
         gen_dir = None     # the other theorems are still checked, against the committed snapshot of the tables
     obl = ck.coq_properties(gen_dir=gen_dir) if gen_dir else ck.coq_properties()
     ck.log("theorems: %d, failed: %d" % (len(obl), len([o for o in obl if not o["ok"]])))
-    mfail = ck.coq_make(["theories/Fmt/TextModel.vo", "theories/Fmt/X86FmtModel.vo", "theories/Fmt/X86InstModel.vo", "theories/Fmt/A64FmtModel.vo", "theories/Fmt/LogLine.vo", "theories/Fmt/LabelVirt.vo", "theories/Fmt/DataNode.vo", "theories/Fmt/X86Explain.vo", "theories/Fmt/RegList.vo", "theories/Fmt/VirtNames.vo", "theories/Fmt/FuncValue.vo", "theories/Fmt/LogOptions.vo", "theories/Fmt/Directives.vo"])
+    mfail = ck.coq_make(["theories/Fmt/TextModel.vo", "theories/Fmt/X86FmtModel.vo", "theories/Fmt/X86InstModel.vo", "theories/Fmt/A64FmtModel.vo", "theories/Fmt/LogLine.vo", "theories/Fmt/LabelVirt.vo", "theories/Fmt/DataNode.vo", "theories/Fmt/X86Explain.vo", "theories/Fmt/RegList.vo", "theories/Fmt/VirtNames.vo", "theories/Fmt/FuncValue.vo", "theories/Fmt/LogOptions.vo", "theories/Fmt/Directives.vo", "theories/Fmt/A64Virt.vo", "theories/Fmt/FuncLine.vo", "theories/Fmt/Transcript.vo", "theories/Fmt/A64VirtRead.vo", "theories/Fmt/A32Regs.vo", "theories/Fmt/NonVacuity.vo"])
     if mfail:
         raise RuntimeError("model theories do not compile: %s %s" % (mfail, getattr(ck, "coq_log", "")[-800:]))
     model = ck.ocaml_model("Extract_Fmt.v", ["zconv.ml", "c20_driver.ml"], name="c20")
@@ -168,6 +203,7 @@ def run(ck):
     except Exception as e:
         forms64 = None
         ck.notes.append("AArch64 ISA database not readable (%s): DB-driven a64 emission skipped" % e)
+    G._A64_NAMES["names"] = isa64
     cmds = G.gen_stream(rng, ck.tier, isa, forms) + G.gen_stream_a64(rng, ck.tier, isa64, vlib.REPO, forms64)
     corpus = os.path.join(vlib.VERIF, "corpus", "C20.txt")
     if os.path.exists(corpus):
@@ -209,6 +245,11 @@ def run(ck):
                 arch = 6 if cmd.split()[2] == "6" else 2
                 for txt, v in zip(vt[0] + vt[1], frets + [p[0] for p in fargs]):
                     phase2.append((cmd, "Q " + txt, G.func_value_words(v, tnames), "P Q %d | %s" % (arch, txt)))
+                # and the proven reader of the WHOLE line (FuncLine.parse_func_line): label id, return value, arguments with their names
+                if len(frets) <= 1:
+                    wl = "1 ## %s ## %s" % (G.func_value_words(frets[0], tnames) if frets else "void",
+                                             "; ".join("%s %s" % (G.func_value_words(p[0], tnames), nm) for p, nm in zip(fargs, G.func_arg_names(cmd))))
+                    phase2.append((cmd, x, wl, "P QL %d | %s" % (arch, x[2:])))
             elif x == y:
                 ck.violation("C20/func-node-split/%s" % re.sub(r"\s+", "_", cmd)[:120], "the FuncNode line %r does not split into the %s return and %s argument "
                              "values of its FuncDetail" % (x[2:], len(frets or []), len(fargs or [])), {"command": cmd, "impl": x})
@@ -219,6 +260,17 @@ def run(ck):
                 if got != (ex[0], ex[1]):
                     abi_disagree += 1       # the assignment itself is C06's subject; recorded, not judged here
         kinds[k] = kinds.get(k, 0) + 1
+        if cmd.startswith("O 5 "):
+            # AArch32 register operands (A32Regs.v): text compared; "r<id>" read back by the proven parse_a32_gp
+            nontrivial.add(x)
+            f5 = cmd.split()
+            if x != y:
+                disagreements += 1
+                ck.violation("C20/a32-reg/%s" % re.sub(r"\s+", "_", cmd), "AArch32 register text differs from the model: %r impl %r model %r" % (cmd, x, y),
+                             {"command": cmd, "impl": x, "model": y})
+            elif f5[3] == "R" and f5[4] == "5":
+                phase2.append((cmd, x, y, "P R5 %s | %s" % (f5[5], x[2:])))
+            continue
         if k in "OX":
             nontrivial.add(x)
         if x != y:
@@ -262,6 +314,13 @@ def run(ck):
             elif cmd.split()[1] == "5":
                 phase2.append((cmd, x, y, "P RL | %s" % x[3:]))
             continue
+        if cmd.startswith("W6 ") and x == y and cmd.split()[5] != "!":
+            # the proven AArch64 virtual-register reader on the printed operand: index, element suffix (python's own: the text behind the name), element index
+            f6 = cmd.split()
+            body6 = x[3:].split("[")[0]
+            suf6 = body6[body6.index("."):] if "." in body6 else "-"
+            venv6 = "%d %s" % (len(G.A64_VREG_TABLE), " ".join("%d %s" % (vt, nm) for vt, nm in G.A64_VREG_TABLE))
+            phase2.append((cmd, x, "%s %s %s" % (f6[3], suf6, f6[7]), "P V6 %s | %s" % (venv6, x[3:])))
         if k in "KJQ" or cmd.startswith("W6 "):
             nontrivial.add(x)
             if x != y:
@@ -388,9 +447,86 @@ def run(ck):
         xcmd = "X %s 0 %s" % (cmd.split()[1], G.e_to_x(ses_eff[ei]))
         phase2.append((xcmd, "X " + itext, "X " + y[2:], "P X %s %s | %s" % (cmd.split()[1], G.e_to_x(ses_eff[ei]), itext)))
 
+    # ---------------------------------------------------------------- whole logs (Transcript.v): runs of consecutive kMachineCode lines of the session, as ONE text,
+    # through the proven parse_log + columns_bytes: the bytes read off the log are the bytes that were appended
+    tr_stat = {"logs": 0, "lines": 0, "bytes_agree": 0}
+    runs, cur = [], []
+    for ei, (cmd, x) in enumerate(zip(ses, si)):
+        m_ = re.match(r"E 0 (\S+) (.*)$", x)
+        if m_ and int(cmd.split()[2]) & 1 and m_.group(1) != "-" and m_.group(2).endswith("$") and "$" not in m_.group(2)[:-1]:
+            cur.append((m_.group(1), m_.group(2)))
+            if len(cur) == 40:
+                runs.append(cur); cur = []
+        elif cur:
+            runs.append(cur); cur = []
+    if cur:
+        runs.append(cur)
+    runs = [r_ for r_ in runs if len(r_) >= 2][:(60 if ck.tier == "quick" else 2000)]
+    tp = run_exe(model, ["PL | %s" % "".join(lg for _, lg in r_) for r_ in runs], args=margs) if runs else []
+    if isinstance(tp, tuple):
+        ck.violation("C20/harness-crash", "model driver failed on whole logs: %s" % (tp,), {"broken": "ml/c20_driver.ml"}, no_input=True)
+        tp = []
+    for r_, a in zip(runs, tp):
+        tr_stat["logs"] += 1
+        tr_stat["lines"] += len(r_)
+        want_hex = "".join(hx for hx, _ in r_)
+        m_ = re.match(r"PL (\d+) (\S*)$", a)
+        if m_ and int(m_.group(1)) == len(r_) and len(m_.group(2)) == len(want_hex) and all(g == "." or g == w for g, w in zip(m_.group(2), want_hex)):
+            tr_stat["bytes_agree"] += 1
+        else:
+            ck.violation("C20/log-transcript/%s" % re.sub(r"\W+", "_", r_[0][1])[:100], "a log of %d lines reads back (proven parse_log / columns_bytes) as %r; the appended bytes are %s; log: %r"
+                         % (len(r_), a[3:200], want_hex[:200], "".join(lg for _, lg in r_)[:400]), {"impl": "".join(lg for _, lg in r_), "bytes": want_hex})
+
     # ---------------------------------------------------------------- messages of refused instructions
     fm_stat = {"messages": 0, "agree": 0, "agree_with_assembler_added_option": 0, "without_instruction_text": 0}
     fm_alt = []
+    # the error names: whole table (harness DE) against python's reading of the Error enum; beyond the enum the name is "<Unknown>"
+    enames = G.load_error_names(vlib.REPO)
+    de = vlib.sh([impl], inp="DE\n", timeout=60)[1].split("\n")[0]
+    de_names = de[3:].split(",") if de.startswith("DE ") else []
+    fm_stat["error_names_compared"] = len(de_names)
+    if len(de_names) != len(enames) + 2:
+        ck.violation("C20/error-name-table/length", "error_as_string covers %d codes (+2 beyond), the Error enum has %d" % (len(de_names) - 2, len(enames)),
+                     {"command": "DE", "impl": de}, no_input=not de_names)
+    for code_, got_ in enumerate(de_names):
+        want_ = enames.get(code_, "<Unknown>")
+        if got_ != want_:
+            ck.violation("C20/error-name/%d" % code_, "error_as_string(%d) is %r; the Error enum calls this code %r (messages of refused instructions start with this name)"
+                         % (code_, got_, want_), {"command": "DE", "impl": de, "code": code_})
+
+    # Formatter::format_feature over the whole id range of both architectures against python's reading of the CpuFeatures enums; an id that is not a
+    # feature has to print "<Unknown>"
+    for arch_, which_ in ((2, "X86"), (6, "ARM")):
+        fnames = G.load_feature_names(vlib.REPO, which_)
+        df = vlib.sh([impl], inp="DF %d\n" % arch_, timeout=60)[1].split("\n")[0]
+        got_l = df[3:].split(",") if df.startswith("DF ") else []
+        fm_stat["feature_names_compared_%s" % which_] = len(got_l)
+        if not got_l:
+            ck.violation("C20/harness-crash", "harness failed on DF %d" % arch_, {"commands": ["DF %d" % arch_], "broken": "harness"}, no_input=True)
+        for id_, g_ in enumerate(got_l):
+            w_ = fnames.get(id_, "<Unknown>")
+            if g_ != w_:
+                if which_ == "X86" and id_ not in fnames and g_ == fnames.get(max(fnames)):
+                    # CpuFeatures::X86::kMaxValue is stale (names kAMX_TILE, the enum ends with kAMX_TRANSPOSE): ids beyond the enum print the last name.
+                    # Fix proposed: fixes/C20-x86-feature-max-value.patch
+                    ck.violation("C20/x86-feature-max-value", "Formatter::format_feature(X64, %d) prints %r for an id that is no feature (the enum ends at %d = %s): "
+                                 "CpuFeatures::X86::kMaxValue does not name the last feature" % (id_, g_, max(fnames), fnames[max(fnames)]), {"command": "DF 2", "impl": df, "id": id_})
+                else:
+                    ck.violation("C20/feature-name/%s/%d" % (which_, id_), "Formatter::format_feature prints feature %d of CpuFeatures::%s as %r; the enum calls it %r"
+                                 % (id_, which_, g_, w_), {"command": "DF %d" % arch_, "impl": df, "id": id_})
+
+    # Formatter::format_type_id over all 256 TypeId values against python's reading of the TypeId enum (values without an enumerator are not judged)
+    dt = vlib.sh([impl], inp="DT\n", timeout=60)[1].split("\n")[0]
+    dt_names = dt[3:].split(",") if dt.startswith("DT ") else []
+    fm_stat["type_names_compared"] = len([i_ for i_ in range(len(dt_names)) if i_ in tnames])
+    for id_, g_ in enumerate(dt_names):
+        if id_ in tnames and g_ != tnames[id_]:
+            if 45 <= id_ <= 50 and g_ == "uint%s" % tnames[id_].lstrip("maskx"):
+                # the mask / mmx cases of format_type_id are unreachable (it switches on scalar_of(type_id)). Fix proposed: fixes/C20-mask-mmx-type-names.patch
+                ck.violation("C20/mask-mmx-type-names", "Formatter::format_type_id(TypeId %d = k%s) prints %r: the type's own name %r is never printed" % (id_, tnames[id_].capitalize(), g_, tnames[id_]),
+                             {"command": "DT", "impl": dt, "id": id_})
+            else:
+                ck.violation("C20/type-name/%d" % id_, "Formatter::format_type_id(%d) prints %r; the TypeId enum calls it %r" % (id_, g_, tnames[id_]), {"command": "DT", "impl": dt, "id": id_})
 
     def plain_flags(c):
         f_ = c.split()
@@ -409,6 +545,10 @@ def run(ck):
         comment = G.e_comment(cmd)
         want = mtext(cmd, y) + ("" if comment == "-" else " ; " + comment)
         name, sep, body = emsg.partition(": ")
+        err_ = int(si[ei].split()[1])
+        if sep and name != enames.get(err_, "<Unknown>"):
+            ck.violation("C20/failed-emit-error-name/%s" % re.sub(r"\s+", "_", cmd)[:100], "%r was refused with error %d (%s) but the message says %r"
+                         % (cmd, err_, enames.get(err_), name), {"command": cmd, "impl": si[ei]})
         if not sep or not re.fullmatch(r"[A-Za-z]+", name):
             fm_stat["without_instruction_text"] += 1      # errors reported before an instruction is formatted
             continue
@@ -446,10 +586,14 @@ def run(ck):
             and not re.search(r"\bL\d", y)]
     lo = []
     for i in rng.sample(cand, min(len(cand), 600 if ck.tier == "quick" else 4000)):
-        ind, p1, p2 = rng.choice([0, 1, 2, 4, 7, 15]), rng.choice([0, 0, 1, 20, 44, 60, 100]), rng.choice([0, 0, 1, 10, 26, 40])
+        # boundaries of the model's case splits: padding 0 (= default) / 1 / exactly the text length / one more / beyond (up to 300: the extracted model pads with unary naturals); indentation 0 / 255 (uint8)
+        tl = len(sm[i]) - 2
+        ind = rng.choice([0, 1, 2, 4, 7, 15, 255])
+        p1 = rng.choice([0, 0, 1, 20, 44, 60, 100, tl + ind, tl + ind + 1, max(1, tl + ind - 1), 300, 43, 45])
+        p2 = rng.choice([0, 0, 1, 10, 25, 26, 27, 40, 200])
         lo.append(("EO %d %d %d %s" % (ind, p1, p2, ses[i][2:]), i, ind, p1, p2))
     for _ in range(60):
-        ind, p1, p2 = rng.choice([0, 1, 3, 8]), rng.choice([0, 1, 12, 44, 70]), rng.choice([0, 5, 26, 33])
+        ind, p1, p2 = rng.choice([0, 1, 3, 8, 255]), rng.choice([0, 1, 3, 4, 5, 12, 44, 70, 300]), rng.choice([0, 1, 5, 26, 33])
         lo.append(("EB %d %d %d %d %s" % (ind, p1, p2, rng.choice([0, 1]), rng.choice(["-", "-", "entry", "loop_head", "x"])), None, ind, p1, p2))
     la = run_session(impl, [c[0] for c in lo]) if lo else []
     if isinstance(la, tuple):
@@ -588,10 +732,9 @@ def run(ck):
     # ---------------------------------------------------------------- annotated Compiler output (kRAAnnotate [+ kRADebugLiveness]): whole functions
     ka_stat = {"functions": 0, "lines": 0, "annotations_agree": 0, "bytes_agree": 0, "lines_split_back": 0, "instructions_denoted": 0, "refused": 0}
     progs = G.gen_annotated_programs(rng, isa, 150 if ck.tier == "quick" else 1500)
-    # AArch64 functions: there is no Coq model of a whole a64 line with virtual registers; the expected annotation is the model's physical line of the
-    # instruction with the virtual ids (w256, x259, ...) replaced by python with the names the harness gave the registers
-    progs += [(c, ["X 6 %s %s" % (c.split()[1], b) for b in bodies]) for c, bodies in G.gen_annotated_programs_a64(rng, isa64, 100 if ck.tier == "quick" else 1000)]
-    a64_names = {"256": "a", "257": "b", "258": "%2", "259": "p"}
+    # AArch64 functions: the expected annotation is A64Virt.a64_fmt_inst_virt with the environment of the six registers the harness creates
+    ka6_env = "6 5 a 5 b 6 - 6 p 11 - 11 x"
+    progs += [(c, ["K6 %s %s %s" % (c.split()[1], ka6_env, b) for b in bodies]) for c, bodies in G.gen_annotated_programs_a64(rng, isa64, 100 if ck.tier == "quick" else 1000)]
     ka = run_exe(impl, [pg[0] for pg in progs])
     if isinstance(ka, tuple):
         ck.violation("C20/harness-crash", "harness failed on annotated-function commands: %s" % (ka,), {"broken": "harness"}, no_input=True)
@@ -633,9 +776,7 @@ def run(ck):
         c = job["cmd"]
         key = re.sub(r"\s+", "_", c)[:120]
         ann = lambda cm: (cm or "").split(" | ")[0].rstrip(" ")
-        want = [y[2:] for y in km[job["k0"]:job["k0"] + len(job["kcmds"])]]
-        if job["a64"]:
-            want = [re.sub(r"\b[wx](25[6-9])\b", lambda mm: a64_names[mm.group(1)], w_) for w_ in want]
+        want = [y.split(" ", 1)[1] for y in km[job["k0"]:job["k0"] + len(job["kcmds"])]]
         got = [ann(l[3]) for l in job["ours"]]
         # the allocator drops a register-to-register move whose two virtual registers got the same physical register: such an instruction
         # may be missing from the log; everything else has to be there, in order
@@ -675,7 +816,7 @@ def run(ck):
                 ck.violation("C20/annotated-log/split/" + key, "function %r: the proven splitter reads the line %r as %r, expected %r" % (c, l[0], a[3:], w[3:]),
                              {"command": c, "impl": job["impl"]})
         for l, kc, a in zip(job["ours"], job["kcmds"], km[job["x0"]:job["x0"] + len(job["ours"])]):
-            why = "not parsed" if a == "P <no parse>" else (G.annotated_inst_mismatch_a64(kc.split(" ", 3)[3], a[2:]) if job["a64"] else G.annotated_inst_mismatch(kc, a[2:], G.annotated_trampolines(job["lines"])))
+            why = "not parsed" if a == "P <no parse>" else (G.annotated_inst_mismatch_a64(" ".join(kc.split()[3 + 2 * int(kc.split()[2]):]), a[2:]) if job["a64"] else G.annotated_inst_mismatch(kc, a[2:], G.annotated_trampolines(job["lines"])))
             if why is None:
                 ka_stat["instructions_denoted"] += 1
             else:
@@ -742,7 +883,7 @@ def run(ck):
                     # encoded differently is an ENCODER matter (C01/C14 territory) or an llvm naming convention: recorded, not judged here.
                     dis.append({"line": t, "emitted": hx, "llvm_reads_emitted_as": x, "llvm_assembles_line_to": e, "which_reads": y})
             llvm.update({"llvm_mc_same_instruction_other_encoding": alt, "llvm_mc_cannot_decode_no_verdict": und, "llvm_mc_naming_quirk_no_verdict": quirk,
-                         "llvm_mc_disagreements_recorded_not_judged": len(dis), "llvm_mc_disagreement_samples": dis[:12]})
+                         "llvm_mc_disagreements_recorded_not_judged": len(dis), "llvm_mc_first_disagreements_recorded": dis[:12]})
         ck.log("llvm-mc third reading: %s" % llvm)
 
     # ---------------------------------------------------------------- phase 2: proven parsers on AsmJit's text
@@ -767,6 +908,27 @@ def run(ck):
             else:
                 ck.violation("C20/data-parse/%s" % re.sub(r"\s+", "_", cmd)[:120],
                              "format_data prints %r for %r; the proven parser reads %r, the bytes are %r" % (x[2:], cmd, a, G.data_expect(cmd)),
+                             {"command": cmd, "impl": x})
+            continue
+        if k == "P" and pc.startswith("P R5 "):
+            if a == "P ok":
+                parsed_ok += 1
+            else:
+                ck.violation("C20/a32-reg-parse/%s" % re.sub(r"\s+", "_", cmd), "the AArch32 register %r of %r reads back as %s" % (x[2:], cmd, a), {"command": cmd, "impl": x})
+            continue
+        if k == "P" and pc.startswith("P V6 "):
+            if a == "P " + y:
+                parsed_ok += 1
+            else:
+                ck.violation("C20/a64-virt-reg-parse/%s" % re.sub(r"\s+", "_", cmd)[:120], "the AArch64 virtual-register operand %r of %r reads back (proven reader) as %r, expected %r"
+                             % (x[3:], cmd, a[2:], y), {"command": cmd, "impl": x})
+            continue
+        if k == "P" and pc.startswith("P QL "):
+            if a == "P " + y:
+                parsed_ok += 1
+            else:
+                ck.violation("C20/func-line-parse/%s" % re.sub(r"\s+", "_", cmd)[:140],
+                             "the FuncNode line %r of %r reads back (proven reader of the whole line) as %r; the FuncDetail and the bound registers say %r" % (x[2:], cmd, a[2:], y),
                              {"command": cmd, "impl": x})
             continue
         if k == "P" and pc.startswith("P Q "):
@@ -847,10 +1009,23 @@ def run(ck):
                  "templates really emitted with a StringLogger); distinct_nontrivial counts distinct texts produced by the implementation",
          "samples": samples, "commands_by_kind": kinds, "emitted_ok": e_ok, "emitted_ok_by_arch": {"x86-64": e_arch.get("2", 0), "aarch64": e_arch.get("6", 0)}, "emitted_with_named_labels": named, "assembler_added_rex_option": rex_added, "assembler_added_short_option": short_added, "assembler_chose_unscaled_form": unscaled_renamed, "emit_refused_by_error": {str(k): v for k, v in sorted(e_err.items())},
          "texts_parsed_back_by_proven_parser": parsed_ok, "unsupported": unsupported,
+         "proved_vs_compared": {
+             "proved_for_all_inputs (Coq, closed under the global context)": [
+                 "numbers: every 64-bit value x base 2/8/10/16 x all flags x every width; machine-code column: every byte list x rel x imm",
+                 "x86 operands and whole lines, AArch64 operands and whole lines: every element of the stated domains (op_ok / inst_ok / a64_*_ok), every flag combination",
+                 "register lists: every mask < 65536 (lifted from 4 exhaustive sweeps); named virtual registers: every environment satisfying env_ok",
+                 "FuncNode: every value (x86, AArch64) and every whole line with at most one return value; logger options: every indentation and paddings; directive and label lines: every 32-bit id"],
+             "proved_per_run_over_the_whole_domain (translator, regenerated from this tree)": [
+                 "x86 register-name tables (every register type x every id the tables cover)", "InstId enum names (x86 injective, all ids) and the instdb name tables decoded for every id incl. aliases",
+                 "AArch64 condition codes 0..17, shift/extend operators 0..17, data directive words of sizes 1/2/4/8 on x86-64 and AArch64"],
+             "compared_on_generated_inputs (counts above; deterministic per VERIF_SEED)": [
+                 "format_operand / format_instruction / format_node / format_data / format_label texts vs the extracted model", "StringLogger lines of really emitted instructions, directives, bound labels",
+                 "error-handler messages of all refused instructions", "annotated Compiler output of whole functions (x86-64, AArch64)", "kShowAliases alias lists (python rule, not in the Coq model)"],
+             "evidence_only_no_verdict": ["llvm-mc third reading of x86 Intel lines", "python ABI tables vs FuncDetail (C06's subject)"]},
          "func_node_abi_cross_check": {"signatures_with_python_abi_table": abi_checked, "assignment_differs_from_table": abi_disagree,
                                        "note": "evidence only: the argument assignment is property C06's subject; here the text has to denote the FuncDetail"},
          "traces_validated_against_impl": len(cmds), "model_vs_impl_disagreements": disagreements,
-         "coverage_floor": {k: {"measured": v[0], "floor": v[1]} for k, v in floor.items()}, "cosmetic_flags_compared": cos_stat, "logger_options_compared": lo_stat, "refused_instruction_messages": fm_stat, "annotated_compiler_functions": ka_stat, "assembler_directive_lines": dd_stat, "llvm_mc_third_reading": llvm, "isa_db_forms": len(forms or []), "a64_isa_db_forms": len(forms64 or []), "emitted_distinct_mnemonics": {"x86-64": len(mn_seen.get("2", ())), "aarch64": len(mn_seen.get("6", ()))}, "instruction_names": len(isa), "a64_instruction_names": len(isa64)},
+         "coverage_floor": {k: {"measured": v[0], "floor": v[1]} for k, v in floor.items()}, "cosmetic_flags_compared": cos_stat, "logger_options_compared": lo_stat, "whole_logs_read_back": tr_stat, "refused_instruction_messages": fm_stat, "annotated_compiler_functions": ka_stat, "assembler_directive_lines": dd_stat, "llvm_mc_third_reading": llvm, "isa_db_forms": len(forms or []), "a64_isa_db_forms": len(forms64 or []), "emitted_distinct_mnemonics": {"x86-64": len(mn_seen.get("2", ())), "aarch64": len(mn_seen.get("6", ()))}, "instruction_names": len(isa), "a64_instruction_names": len(isa64)},
         assumptions=["the C++ harness calls the real functions of /repo's working tree (Formatter::format_operand/format_instruction, String::append_uint, "
                      "x86::Assembler::_emit with a StringLogger; reg_format_info via #include of x86formatter.cpp)",
                      "theorems are about the Gallina model; the model is tied to the code by the table translator and the text differential of this check",
